@@ -325,9 +325,25 @@ func ruleC16R5(r *Run) {
 	r.Check("saveFailFile#temp-pattern.suffix", v.create.Instr.Pos(), !strings.HasSuffix(pat, ".fail"), "temp names do not end in .fail", fmt.Sprintf("temp pattern %q ends in .fail", pat))
 	// the discovery pattern really starts with the sanitised name and ends in .fail
 	if fp := r.MustFn("failFilePattern"); fp != nil {
-		for _, cs := range p.callsTo(fp, "fmt.Sprintf") {
-			f, _ := constString(p.resolve(cs.Arg(0)))
-			r.Check("failFilePattern#format", cs.Instr.Pos(), strings.HasPrefix(f, "%s-") && strings.HasSuffix(f, ".fail"), fmt.Sprintf("discovery pattern %q = <sanitised name>-….fail", f), fmt.Sprintf("discovery pattern format is %q (expected %%s-….fail)", f))
+		rets := returnsOf(fp)
+		if len(rets) != 1 {
+			r.Undecided("failFilePattern#format", fp.Pos(), "expected failFilePattern to have one return")
+		} else {
+			flat := ""
+			for _, q := range p.strShape(p.res(rets[0], 0)) {
+				switch {
+				case q.Kind == "lit":
+					flat += q.Lit
+				case strings.HasPrefix(q.Expr, "kindaSafeFilename("):
+					flat += "\x01"
+				default:
+					flat += "\x02"
+				}
+			}
+			file := flat[strings.LastIndex(flat, "/")+1:]
+			r.Check("failFilePattern#format", rets[0].Pos(), strings.HasPrefix(file, "\x01-") && strings.HasSuffix(file, ".fail"),
+				fmt.Sprintf("the file part of the discovery pattern is %q = <sanitised name>-….fail: it cannot match a temporary name", strings.ReplaceAll(file, "\x01", "<safe(testName)>")),
+				fmt.Sprintf("the file part of the discovery pattern is %q (expected <sanitised name>-….fail): Go's Glob lets * match a leading dot, so the half-written temporary file of an interrupted save is picked up as a fail file", strings.NewReplacer("\x01", "<safe(testName)>", "\x02", "<value>").Replace(file)))
 		}
 	}
 	ruleC06R2(r)
@@ -655,12 +671,61 @@ func ruleC06R3(r *Run) {
 			okSkip = true
 		}
 	}
+	// … or by its first byte: s[0] != '#' on a non-empty trimmed line
+	for _, b := range p.body(load) {
+		for _, in := range b.Instrs {
+			bo, ok := in.(*ssa.BinOp)
+			if !ok || (bo.Op != token.NEQ && bo.Op != token.EQL) || prefix == "" {
+				continue
+			}
+			for _, xy := range [][2]ssa.Value{{bo.X, bo.Y}, {bo.Y, bo.X}} {
+				var sx, si ssa.Value
+				switch e := p.resolve(xy[0]).(type) {
+				case *ssa.Lookup:
+					sx, si = e.X, e.Index
+				case *ssa.Index:
+					sx, si = e.X, e.Index
+				}
+				c, isC := constInt(p.resolve(xy[1]))
+				if sx == nil || !isC || c != int64(prefix[0]) {
+					continue
+				}
+				if i0, isI := constInt(p.resolve(si)); isI && i0 == 0 && strings.HasPrefix(p.expr(sx), "strings.TrimSpace(") {
+					okSkip = true
+				}
+			}
+		}
+	}
 	r.Check("loadFailFile#skip-comments", load.Pos(), okSkip && prefix != "", "the reader skips lines starting with the writer's comment marker", "the reader does not skip lines starting with the writer's comment prefix "+fmt.Sprintf("%q", prefix))
 	// output is split on "\n" so that no comment line contains a newline
 	okSplit := false
 	for _, cs := range p.callsTo(save, "strings.Split") {
 		sep, _ := constString(p.resolve(cs.Arg(1)))
 		if sep == "\n" && p.expr(cs.Arg(0)) == "conv<string>($output)" {
+			okSplit = true
+		}
+	}
+	// … or peeled off line by line: strings.Cut(rest, "\n") in a loop, rest starting as string(output) and
+	// continuing with the remainder of the same cut
+	for _, cs := range p.callsTo(save, "strings.Cut") {
+		call, isCall := cs.Instr.(*ssa.Call)
+		sep, _ := constString(p.resolve(cs.Arg(1)))
+		phi, isPhi := p.resolve(cs.Arg(0)).(*ssa.Phi)
+		if !isCall || sep != "\n" || !isPhi || innermostLoop(cs.Instr) == nil {
+			continue
+		}
+		fromOutput, fromRest, other := false, false, false
+		for _, e := range phi.Edges {
+			e = p.resolve(e)
+			if ex, ok := e.(*ssa.Extract); ok && ex.Tuple == ssa.Value(call) && ex.Index == 1 {
+				fromRest = true
+			} else if p.expr(e) == "conv<string>($output)" {
+				fromOutput = true
+			} else {
+				other = true
+			}
+		}
+		if fromOutput && fromRest && !other {
 			okSplit = true
 		}
 	}
@@ -710,11 +775,59 @@ func ruleC06R3(r *Run) {
 			}
 		}
 	}
+	builderForm := false
+	if nHdr == 0 && nWord == 0 {
+		// builder form: the data section is accumulated in a local strings.Builder / bytes.Buffer — the writes
+		// before the loop over the buffer are the header, the writes inside it one data line (led by its separator)
+		if hdr, word, pos, ok := p.builderSections(save); ok {
+			builderForm = true
+			hasVersion := false
+			for _, q := range hdr {
+				if q.Expr == "$version" {
+					hasVersion = true
+				}
+			}
+			if hasVersion {
+				nHdr = 1
+				okH := len(hdr) == 3 && hdr[0].Expr == "$version" && hdr[0].Kind != "lit" && hdr[1].Kind == "lit" && hdr[2].Kind == "int" && hdr[2].Expr == "$seed"
+				if okH {
+					hdrSep, seedBase = hdr[1].Lit, hdr[2].Base
+				}
+				r.Check("saveFailFile#header", pos, okH, "header is version<sep>seed", "header is "+shapeString(hdr)+", expected version<sep>seed")
+			}
+			if len(word) > 0 && word[0].Kind == "lit" && strings.HasPrefix(word[0].Lit, "\n") {
+				joinSep = "\n"
+				word = append([]strPart{{Kind: "lit", Lit: word[0].Lit[1:]}}, word[1:]...)
+				if word[0].Lit == "" {
+					word = word[1:]
+				}
+			}
+			hasWord := false
+			for _, q := range word {
+				if q.Kind == "int" && (strings.HasPrefix(q.Expr, "$buf[") || strings.HasPrefix(q.Expr, "conv<uint64>($buf[")) {
+					hasWord = true
+				}
+			}
+			if hasWord {
+				nWord = 1
+				okW := (len(word) == 1 && word[0].Kind == "int") || (len(word) == 2 && word[0].Kind == "lit" && word[1].Kind == "int")
+				if okW {
+					wordBase = word[len(word)-1].Base
+					if len(word) == 2 {
+						wordPrefix = word[0].Lit
+					}
+				}
+				r.Check("saveFailFile#word", pos, okW, "each word of the buffer is written as "+shapeString(word), "a data line is "+shapeString(word)+", expected [prefix]<word>")
+			}
+		}
+	}
 	if nHdr != 1 || nWord != 1 {
 		r.Undecided("saveFailFile#data-lines", save.Pos(), fmt.Sprintf("expected one header string and one word string stored into the line slice, found %d and %d", nHdr, nWord))
 	}
 	for _, cs := range p.callsTo(save, "strings.Join") {
-		joinSep, _ = constString(p.resolve(cs.Arg(1)))
+		if !builderForm {
+			joinSep, _ = constString(p.resolve(cs.Arg(1)))
+		}
 	}
 	okHdr := false
 	for _, cs := range p.callsTo(load, "strings.Split", "strings.SplitN", "strings.Cut") {
@@ -1701,4 +1814,118 @@ func rngBase(p *Program, v ssa.Value) ssa.Value {
 		}
 	}
 	return v
+}
+
+// builderSections recognises a data section accumulated in one local strings.Builder / bytes.Buffer of fn:
+// the shapes written before the (single) loop that writes to it, the shapes written per iteration of that loop,
+// provided the accumulated string is then handed to a write call. Writes anywhere else (after the loop, in a
+// nested or second loop, under a branch) make the form unrecognised.
+func (p *Program) builderSections(fn *ssa.Function) (hdr, word []strPart, pos token.Pos, ok bool) {
+	var bld *ssa.Alloc
+	for _, b := range p.body(fn) {
+		for _, in := range b.Instrs {
+			if a, isA := in.(*ssa.Alloc); isA {
+				switch a.Type().String() {
+				case "*strings.Builder", "*bytes.Buffer":
+					if bld != nil {
+						return nil, nil, token.NoPos, false
+					}
+					bld = a
+				}
+			}
+		}
+	}
+	if bld == nil {
+		return nil, nil, token.NoPos, false
+	}
+	var loop *loopInfo
+	var hdrBlocks []*ssa.BasicBlock
+	handedOut := false
+	for _, b := range fn.Blocks { // block order of go/ssa follows the source order of straight-line code
+		for _, in := range b.Instrs {
+			ci, isC := in.(ssa.CallInstruction)
+			if !isC {
+				continue
+			}
+			c := ci.Common()
+			key := p.calleeKey(c)
+			onBld := len(c.Args) > 0 && p.resolve(c.Args[0]) == ssa.Value(bld)
+			var parts []strPart
+			switch {
+			case onBld && (strings.HasSuffix(key, ".WriteString")):
+				parts = p.strShapeEnv(c.Args[1], nil, 0)
+			case onBld && (strings.HasSuffix(key, ".WriteByte") || strings.HasSuffix(key, ".WriteRune")):
+				ch, isK := constInt(p.resolve(c.Args[1]))
+				if !isK {
+					return nil, nil, token.NoPos, false
+				}
+				parts = []strPart{{Kind: "lit", Lit: string(rune(ch))}}
+			case onBld && strings.HasSuffix(key, ".String"):
+				handedOut = true
+				continue
+			case onBld && (strings.HasSuffix(key, ".Grow") || strings.HasSuffix(key, ".Len")):
+				continue
+			case onBld:
+				return nil, nil, token.NoPos, false
+			default:
+				continue
+			}
+			if _, isDefer := in.(*ssa.Defer); isDefer {
+				return nil, nil, token.NoPos, false
+			}
+			l := innermostLoop(in)
+			switch {
+			case l == nil:
+				if loop != nil {
+					return nil, nil, token.NoPos, false
+				}
+				hdrBlocks = append(hdrBlocks, b)
+				hdr = append(hdr, parts...)
+				if pos == token.NoPos {
+					pos = in.Pos()
+				}
+			default:
+				nest := 0
+				for _, o := range loopsOf(fn) {
+					if o.Body[b] {
+						nest++
+					}
+				}
+				if loop != nil && loop.Header != l.Header || nest != 1 {
+					return nil, nil, token.NoPos, false
+				}
+				for _, lb := range l.Latch {
+					if !b.Dominates(lb) {
+						return nil, nil, token.NoPos, false
+					}
+				}
+				loop = l
+				word = append(word, parts...)
+			}
+		}
+	}
+	if !handedOut || loop == nil {
+		return nil, nil, token.NoPos, false
+	}
+	for _, hb := range hdrBlocks { // header writes are unconditional: each dominates the loop
+		if !hb.Dominates(loop.Header) {
+			return nil, nil, token.NoPos, false
+		}
+	}
+	return mergeLits(hdr), mergeLits(word), pos, true
+}
+
+func mergeLits(parts []strPart) []strPart {
+	var out []strPart
+	for _, q := range parts {
+		if q.Kind == "lit" && q.Lit == "" {
+			continue
+		}
+		if q.Kind == "lit" && len(out) > 0 && out[len(out)-1].Kind == "lit" {
+			out[len(out)-1].Lit += q.Lit
+			continue
+		}
+		out = append(out, q)
+	}
+	return out
 }
